@@ -1,6 +1,7 @@
 package conslog
 
 import (
+	"errors"
 	"fmt"
 	"math/rand"
 	"strings"
@@ -378,8 +379,10 @@ func RunAll(o RunOpts) {
 		rc := rng.Intn(100) < o.RCProb
 		kvs := kafkaVersionsFor(f, rc)
 		sc := E2EScenario{Gen: &gg, KafkaVersion: kvs[rng.Intn(len(kvs))], ReadCommitted: rc, Topic: fmt.Sprintf("%s-%d-%d", o.Tag, o.Seed, i)}
-		sc.FetchDefault, sc.FetchMax, _ = fetchSizes(rng, g.Log)
-		if sc.FetchMax != 0 && sc.FetchMax < int32(maxUnit(g.Log)) {
+		// every stored unit - also those behind the last stable offset - must fit into Fetch.Max (hypothesis `fits`)
+		whole := g.ViewFor(false).Log
+		sc.FetchDefault, sc.FetchMax, _ = fetchSizes(rng, whole)
+		if sc.FetchMax != 0 && sc.FetchMax < int32(maxUnit(whole)) {
 			sc.FetchMax = 0
 			sc.FetchDefault = 1 << 20
 		}
@@ -559,6 +562,12 @@ func E2EMonitor(sc E2EScenario, res E2EResult) *cf.Monitor {
 	if m := Monitor("e2e", l, sc.ReadCommitted, res.Started, l.End(), res.Complete, StripMarks(res.Delivered)); m != nil {
 		return m
 	}
+	for _, e := range res.Errs {
+		if errors.Is(e, sarama.ErrMessageTooLarge) {
+			// the generator keeps every batch within Fetch.Max, so this is never legitimate here
+			return &cf.Monitor{Signature: "e2e:message-too-large", What: fmt.Sprintf("ErrMessageTooLarge reported although every stored batch fits into Consumer.Fetch.Max = %d (largest %d bytes): a record was stepped over", sc.FetchMax, maxUnit(sc.Gen.ViewFor(false).Log))}
+		}
+	}
 	if !res.Complete && !res.Closed {
 		return &cf.Monitor{Signature: "e2e:stalled", What: fmt.Sprintf("delivery stopped after %d messages although the partition stayed reachable", len(res.Delivered))}
 	}
@@ -573,11 +582,11 @@ func E2EMonitor(sc E2EScenario, res E2EResult) *cf.Monitor {
 
 func runOneE2E(seed int64, sc E2EScenario) work {
 	res := RunE2E(seed, sc)
-	if res.SiblingStalled {
+	if stalled := func(r E2EResult) bool { return r.SiblingStalled || (r.StartErr == nil && !r.Complete && !r.Closed) }; stalled(res) {
 		// a stall is judged by a time-out: it counts only if the same scenario stalls again
 		sc2 := sc
 		sc2.Topic = sc.Topic + "-again"
-		if res2 := RunE2E(seed, sc2); !res2.SiblingStalled {
+		if res2 := RunE2E(seed, sc2); !stalled(res2) {
 			res = res2
 		}
 	}
